@@ -309,9 +309,37 @@ theorem rippleSub_spec {inp : List Bool} (l : List (Nat × Nat)) :
       subst hr; subst hk
       simp [rippleSubBits, subBits]
 
+theorem rippleSubBits_length (l : List (Bool × Bool)) (c keep : Bool) :
+    (rippleSubBits l c keep).length = l.length + keep.toNat := by
+  simp [rippleSubBits]; cases keep <;> simp
+
+theorem val_getLastD {s : St} {inp : List Bool} (ws : List Nat) (h : ws ≠ []) :
+    s.val inp (ws.getLastD 0) = (busVal s inp ws).getLastD false := by
+  induction ws with
+  | nil => exact absurd rfl h
+  | cons w ws ih =>
+    cases ws with
+    | nil => rfl
+    | cons w' ws' =>
+      have := ih (by simp)
+      simpa [List.getLastD] using this
+
+theorem getLastD_mem' {ws : List Nat} (h : ws ≠ []) : ws.getLastD 0 ∈ ws := by
+  induction ws with
+  | nil => exact absurd rfl h
+  | cons w ws ih =>
+    cases ws with
+    | nil => simp [List.getLastD]
+    | cons w' ws' =>
+      have := ih (by simp)
+      simp [List.getLastD] at this ⊢
+
+theorem getLastD_mem_bnd {s : St} {ws : List Nat} (hb : Bnd s ws) (h : ws ≠ []) : ws.getLastD 0 < s.next :=
+  hb _ (getLastD_mem' h)
+
 /-- What `NewSubtractor` (Yao) produces, for every width: the difference bits
 of the (padded, truncated) operands, the final borrow when `nz` exceeds their
-width, then zeros. -/
+width, then copies of the borrow. -/
 theorem rippleSubtractor_bits {s : St} {inp : List Bool} (hwf : WF s inp) {x y : List Nat} (nz : Nat)
     (hx : Bnd s x) (hy : Bnd s y) :
     Spec inp s (rippleSubtractor x y nz) (fun z s' => Bnd s' z ∧
@@ -319,7 +347,10 @@ theorem rippleSubtractor_bits {s : St} {inp : List Bool} (hwf : WF s inp) {x y :
         rippleSubBits (((padTo (busVal s inp x) (max x.length y.length)).take nz).zip
             ((padTo (busVal s inp y) (max x.length y.length)).take nz)) false
           (decide (min (max x.length y.length) nz < nz)) ++
-        List.replicate (nz - (min (max x.length y.length) nz + 1)) false) := by
+        List.replicate (nz - (min (max x.length y.length) nz + 1))
+          ((rippleSubBits (((padTo (busVal s inp x) (max x.length y.length)).take nz).zip
+            ((padTo (busVal s inp y) (max x.length y.length)).take nz)) false
+          (decide (min (max x.length y.length) nz < nz))).getLastD false)) := by
   unfold rippleSubtractor
   refine Spec.bind (zeroPad_spec hwf hx hy) ?_
   intro p s1 e1 ⟨hp1, hp2, hv1, hv2⟩
@@ -333,22 +364,31 @@ theorem rippleSubtractor_bits {s : St} {inp : List Bool} (hwf : WF s inp) {x y :
   intro cin s2 e2 hcin
   have hbz : BndP s2 ((p.1.take nz).zip (p.2.take nz)) :=
     BndP.zip ((hp1.take nz).mono e2) ((hp2.take nz).mono e2)
-  refine Spec.bind (rippleSub_spec _ e2.wf cin _ hbz hcin.1) ?_
+  refine (rippleSub_spec _ e2.wf cin _ hbz hcin.1).map ?_
   intro bd s3 e3 ⟨hbd, hbv⟩
-  refine Spec.bind (zeros_spec e3.wf _) ?_
-  intro zs s4 e4 ⟨hzs, hzv⟩
-  refine Spec.pure e4.wf ⟨(hbd.mono e4).append hzs, ?_⟩
-  rw [busVal_append, hzv, busVal_ext e4 hbd, hbv, hcin.2, pairVals_zip,
-    busVal_ext e2 (hp1.take nz), busVal_ext e2 (hp2.take nz), busVal_take, busVal_take, hv1, hv2]
+  have hbv' : busVal s3 inp bd = rippleSubBits (((padTo (busVal s inp x) (max x.length y.length)).take nz).zip
+      ((padTo (busVal s inp y) (max x.length y.length)).take nz)) false
+      (decide (min (max x.length y.length) nz < nz)) := by
+    rw [hbv, hcin.2, pairVals_zip, busVal_ext e2 (hp1.take nz), busVal_ext e2 (hp2.take nz), busVal_take,
+      busVal_take, hv1, hv2]
+  by_cases hk : nz - (min (max x.length y.length) nz + 1) = 0
+  · rw [hk]
+    simp only [List.replicate_zero, List.append_nil]
+    exact ⟨hbd, hbv'⟩
+  · have hne : bd ≠ [] := by
+      intro h
+      have := congrArg List.length hbv'
+      rw [h, rippleSubBits_length] at this
+      have hkeep : decide (min (max x.length y.length) nz < nz) = true := decide_eq_true (by omega)
+      rw [hkeep] at this
+      simp at this
+    refine ⟨hbd.append (Bnd.replicate (getLastD_mem_bnd hbd hne) _), ?_⟩
+    rw [busVal_append, busVal_replicate, val_getLastD bd hne, hbv']
 
-theorem rippleSubBits_length (l : List (Bool × Bool)) (c keep : Bool) :
-    (rippleSubBits l c keep).length = l.length + keep.toNat := by
-  simp [rippleSubBits]; cases keep <;> simp
-
-/-- `NewSubtractor` (Yao) is exact when the result is at most one bit wider
-than the operands: `z + y ≡ x (mod 2^nz)`. -/
+/-- `NewSubtractor` (Yao) is exact for every operand and result width:
+`z + y ≡ x (mod 2^nz)`. -/
 theorem rippleSubtractor_spec {s : St} {inp : List Bool} (hwf : WF s inp) {x y : List Nat} (nz : Nat)
-    (hx : Bnd s x) (hy : Bnd s y) (hnz : 0 < nz) (hle : nz ≤ max x.length y.length + 1) :
+    (hx : Bnd s x) (hy : Bnd s y) (hnz : 0 < nz) :
     Spec inp s (rippleSubtractor x y nz) (fun z s' => Bnd s' z ∧ z.length = nz ∧
       (toNat (busVal s' inp z) + toNat (busVal s inp y)) % 2 ^ nz = toNat (busVal s inp x) % 2 ^ nz) := by
   refine (rippleSubtractor_bits hwf nz hx hy).mono ?_
@@ -378,25 +418,43 @@ theorem rippleSubtractor_spec {s : St} {inp : List Bool} (hwf : WF s inp) {x y :
     · simp [h]; omega
     · simp [h]; omega
   · by_cases h : min (max x.length y.length) nz < nz
-    · -- nz = max + 1: all bits of subBits are kept
+    · -- nz > max: all bits of subBits are kept, the borrow is replicated
       have hm : min (max x.length y.length) nz = max x.length y.length := by omega
-      have hnz' : nz = max x.length y.length + 1 := by omega
       rw [decide_eq_true h] at hv
-      rw [hv, toNat_append_zeros, rippleSubBits, toNat_take, hLlen, hm]
-      simp only [Bool.toNat_true]
-      rw [hLlen, hm, ← hnz'] at hsub
-      have hps : 2 ^ nz = 2 * 2 ^ max x.length y.length := by rw [hnz', Nat.pow_succ]; omega
+      have hfull : rippleSubBits L false true = subBits L false := by
+        simp only [rippleSubBits, Bool.toNat_true]
+        exact List.take_of_length_le (by simp)
+      rw [hfull, hm] at hv
+      rw [hv, toNat_append, subBits_length, hLlen, hm]
+      rw [hLlen, hm] at hsub
+      have hpz : 2 ^ (max x.length y.length + 1) ≤ 2 ^ nz := Nat.pow_le_pow_right (by omega) (by omega)
+      have hps : 2 ^ (max x.length y.length + 1) = 2 * 2 ^ max x.length y.length := by
+        rw [Nat.pow_succ]; omega
       rw [Nat.mod_eq_of_lt (by omega : toNat (busVal s inp x) < 2 ^ nz),
         Nat.mod_eq_of_lt (by omega : toNat (busVal s inp y) < 2 ^ nz)] at hsub
-      have hS := toNat_lt (subBits L false)
-      simp only [subBits_length, hLlen, hm, ← hnz'] at hS
-      rw [← hnz', Nat.mod_eq_of_lt hS, ← hsub, Nat.add_mul_mod_self_left]
+      have hrep := toNat_replicate_add (nz - (max x.length y.length + 1)) ((subBits L false).getLastD false)
+      have hpow : 2 ^ (max x.length y.length + 1) * 2 ^ (nz - (max x.length y.length + 1)) = 2 ^ nz := by
+        rw [← Nat.pow_add]; congr 1; omega
+      generalize ((subBits L false).getLastD false).toNat = bo at *
+      generalize toNat (List.replicate (nz - (max x.length y.length + 1)) ((subBits L false).getLastD false)) = R at *
+      generalize 2 ^ (nz - (max x.length y.length + 1)) = K at *
+      generalize 2 ^ (max x.length y.length + 1) = P at *
+      -- S + P*R + Y = X + P*bo + P*R = X + P*(K*bo) = X + 2^nz * bo
+      have h1 : toNat (subBits L false) + P * R + toNat (busVal s inp y) =
+          toNat (busVal s inp x) + 2 ^ nz * bo := by
+        have : P * (R + bo) = P * R + P * bo := Nat.mul_add _ _ _
+        have h2 : P * (K * bo) = 2 ^ nz * bo := by rw [← Nat.mul_assoc, hpow]
+        rw [hrep] at this
+        omega
+      rw [h1, Nat.add_mul_mod_self_left]
     · have hm : min (max x.length y.length) nz = nz := by omega
       rw [decide_eq_false h] at hv
-      rw [hv, toNat_append_zeros, rippleSubBits, toNat_take, hLlen, hm]
+      have hk0 : nz - (min (max x.length y.length) nz + 1) = 0 := by omega
+      rw [hk0] at hv
+      simp only [List.replicate_zero, List.append_nil] at hv
+      rw [hv, rippleSubBits, toNat_take, hLlen, hm]
       simp only [Bool.toNat_false, Nat.add_zero]
       rw [hLlen, hm] at hsub
-      -- (S % 2^nz + Y) % 2^nz = (S + Y % 2^nz) % 2^nz = (X % 2^nz + 2^(nz+1) * bo) % 2^nz
       have h1 : (toNat (subBits L false) % 2 ^ nz + toNat (busVal s inp y)) % 2 ^ nz =
           (toNat (subBits L false) + toNat (busVal s inp y) % 2 ^ nz) % 2 ^ nz := by
         rw [Nat.add_mod, Nat.mod_mod, ← Nat.add_mod (toNat (subBits L false))]
@@ -458,30 +516,6 @@ theorem uintComparator_spec {s : St} {inp : List Bool} (hwf : WF s inp) {x y : L
   simp only [busVal_cons, busVal_nil, hr.2, cmpFold_spec, pairVals_zip, hv1, hv2, e1.val cin hc]
   rw [List.map_fst_zip (by simp; omega), List.map_snd_zip (by simp; omega)]
   simp [cmpNat]
-
-theorem val_getLastD {s : St} {inp : List Bool} (ws : List Nat) (h : ws ≠ []) :
-    s.val inp (ws.getLastD 0) = (busVal s inp ws).getLastD false := by
-  induction ws with
-  | nil => exact absurd rfl h
-  | cons w ws ih =>
-    cases ws with
-    | nil => rfl
-    | cons w' ws' =>
-      have := ih (by simp)
-      simpa [List.getLastD] using this
-
-theorem getLastD_mem' {ws : List Nat} (h : ws ≠ []) : ws.getLastD 0 ∈ ws := by
-  induction ws with
-  | nil => exact absurd rfl h
-  | cons w ws ih =>
-    cases ws with
-    | nil => simp [List.getLastD]
-    | cons w' ws' =>
-      have := ih (by simp)
-      simp [List.getLastD] at this ⊢
-
-theorem getLastD_mem_bnd {s : St} {ws : List Nat} (hb : Bnd s ws) (h : ws ≠ []) : ws.getLastD 0 < s.next :=
-  hb _ (getLastD_mem' h)
 
 /-- Signed comparison of two equally long two's complement bit lists. -/
 def cmpInt (xs ys : List Bool) (c : Bool) : Bool :=
@@ -1102,9 +1136,8 @@ theorem xorBits_spec {inp : List Bool} (l : List (Nat × Nat)) :
       rw [hrv, pairVals_ext e1 hl.tail]
       simp [popDiff]
 
-/-- `Hamming` (Yao target), operands at least 2 bits wide: the result is the
-number of differing bit positions modulo `2^nz`. -/
-theorem hamming_spec {s : St} {inp : List Bool} (hwf : WF s inp) {x y : List Nat} (nz : Nat)
+/-- `Hamming` (Yao target), operands at least 2 bits wide. -/
+theorem hamming_spec2 {s : St} {inp : List Bool} (hwf : WF s inp) {x y : List Nat} (nz : Nat)
     (hx : Bnd s x) (hy : Bnd s y) (hne : 2 ≤ max x.length y.length) (hnz : 0 < nz) :
     Spec inp s (hamming false x y nz) (fun z s' => Bnd s' z ∧ z.length = nz ∧
       toNat (busVal s' inp z) = popDiff ((padTo (busVal s inp x) (max x.length y.length)).zip
@@ -1135,6 +1168,54 @@ theorem hamming_spec {s : St} {inp : List Bool} (hwf : WF s inp) {x y : List Nat
   rw [hv3]
   simp only [sumVal] at hav
   rw [hav, pairVals_zip, hv1, hv2]
+
+/-- `Hamming` (Yao target), one-bit operands: the single XOR bit plus zero. -/
+theorem hamming_spec1 {s : St} {inp : List Bool} (hwf : WF s inp) {x y : List Nat} (nz : Nat)
+    (hx : Bnd s x) (hy : Bnd s y) (hne : max x.length y.length = 1) (hnz : 0 < nz) :
+    Spec inp s (hamming false x y nz) (fun z s' => Bnd s' z ∧ z.length = nz ∧
+      toNat (busVal s' inp z) = popDiff ((padTo (busVal s inp x) (max x.length y.length)).zip
+        (padTo (busVal s inp y) (max x.length y.length))) % 2 ^ nz) := by
+  unfold hamming
+  refine Spec.bind (zeroPad_spec hwf hx hy) ?_
+  intro p s1 e1 ⟨hp1, hp2, hv1, hv2⟩
+  have hlen1 : p.1.length = max x.length y.length := by
+    have := congrArg List.length hv1; simp at this; omega
+  have hlen2 : p.2.length = max x.length y.length := by
+    have := congrArg List.length hv2; simp at this; omega
+  refine Spec.bind (xorBits_spec _ e1.wf (BndP.zip hp1 hp2)) ?_
+  intro arr s2 e2 ⟨hg, hal, _, hav⟩
+  have hal1 : arr.length = 1 := by rw [hal]; simp [hlen1, hlen2, hne]
+  obtain ⟨a0, rfl⟩ : ∃ a0, arr = [a0] := by
+    rcases arr with _ | ⟨a0, _ | _⟩ <;> simp at hal1
+    exact ⟨a0, rfl⟩
+  simp only [List.length_cons, List.length_nil, Nat.zero_add, hammingTree, Nat.lt_irrefl, gt_iff_lt,
+    show ¬ (1 > 2) by omega, if_false, pure_bind, bind_run]
+  have h0 := hg.bnd a0 (by simp)
+  show Spec inp s2 (do
+    let z ← zeroWire
+    newAdder false ([a0].getD 0 []) [z] nz) _
+  refine Spec.bind (zeroWire_spec e2.wf) ?_
+  intro zw s3 e3 hz
+  simp only [List.getD_cons_zero, newAdder, Bool.false_eq_true, if_false]
+  refine (rippleAdder_spec e3.wf nz (h0.1.mono e3) (Bnd.cons hz.1 (Bnd.nil _)) (by simp; omega) hnz).mono ?_
+  intro z s4 _ ⟨hzb, hzl, hzv⟩
+  refine ⟨hzb, hzl, ?_⟩
+  rw [hzv, busVal_ext e3 h0.1]
+  simp only [busVal_cons, busVal_nil, hz.2, toNat_cons, toNat_nil, Bool.toNat_false, Nat.add_zero]
+  simp only [sumVal, List.map_cons, List.map_nil, List.sum_cons, List.sum_nil, Nat.add_zero] at hav
+  rw [hav, pairVals_zip, hv1, hv2]
+  simp
+
+/-- `Hamming` (Yao target), every operand width ≥ 1 and every result width: the
+result is the number of differing bit positions modulo `2^nz`. -/
+theorem hamming_spec {s : St} {inp : List Bool} (hwf : WF s inp) {x y : List Nat} (nz : Nat)
+    (hx : Bnd s x) (hy : Bnd s y) (hne : 1 ≤ max x.length y.length) (hnz : 0 < nz) :
+    Spec inp s (hamming false x y nz) (fun z s' => Bnd s' z ∧ z.length = nz ∧
+      toNat (busVal s' inp z) = popDiff ((padTo (busVal s inp x) (max x.length y.length)).zip
+        (padTo (busVal s inp y) (max x.length y.length))) % 2 ^ nz) := by
+  by_cases h : max x.length y.length = 1
+  · exact hamming_spec1 hwf nz hx hy h hnz
+  · exact hamming_spec2 hwf nz hx hy (by omega) hnz
 
 /-! ### array index -/
 
